@@ -169,7 +169,7 @@ FIRST_MISSED = {
     'c16-x': 'symbolic links that lie beside their target (file, default suite file, via a glob): only the double '
              'inclusion itself can make the run invalid - the earlier link cases were invalid for a second reason too',
     'c16-z': 'one glob whose matches hold a directory and that directory\'s own exactly.suite',
-    'c17-y': 'NOT ANSWERED in this session: `exactly suite --actor CMD` versus `exactly --actor CMD --suite`',
+    'c17-y': 'every seventh tree: the actor is given on the command line (`--actor`) of every way of running',
     'c18-x': 'a reporter crash for unsuccessful cases outside the tree of the root suite: caught by C16 (such trees added)',
     'c18-y': 'a JUnit reporter crash for cases that are not executed: caught by C16',
     'c19-x': 'NOT ANSWERED in this session: the rendering of a -rel-cd program path after a timeout when the current '
